@@ -40,12 +40,21 @@ CHECKS = {
  "C10": dict(cat="proof", tech=TECH % "z3",
       text="callsign/category/cs20 bodies proved against the six-bit character table for every frame; round trip for all 37^8 legal identifications (symbolic codes) position by position.",
       ref="DESIGN.md section 5 C10"),
+ "C12": dict(cat="proof", tech=TECH % "z3",
+      text="Each isNN body is proved equal to an exact boolean contract (status / reserved-bit format rules and plausibility envelope of the register, spec/bds_spec.py), which gives format-soundness and completeness on in-envelope data at once; infer() is proved equal to EMPTY / type-code register / sorted comma-joined set over those contracts for every 112-bit frame and both mrar values; is60's Mach/IAS test uses an uninterpreted MACH2CAS (its equations are C20). is50or60's nearest-vector arbitration goes through numpy (NaN, linalg.norm, nanargmin) and is only checked bounded. Known finding F15 (is50 ignores the roll sign bit) is excluded by its region.",
+      ref="DESIGN.md section 5 C12"),
  "C13": dict(cat="proof", tech=TECH % "z3 + exhaustive table evaluation (uncertainty tables)",
       text="All TC28/TC29 (subtype 0 and 1)/TC31 field decoders are proved against DO-260B bit ranges for every frame; NUCp/NIC/NAC/SIL look-ups are proved total on their domain (TC x supplement x version) with RuntimeError outside it; table monotonicity by exhaustive evaluation. Known finding F16 (horizontal_mode bit range, medium-confidence oracle) is excluded by its region predicate.",
       ref="DESIGN.md section 5 C13"),
  "C11": dict(cat="proof", tech=TECH % "z3 (linear integer/real arithmetic over symbolic frame bits)",
       text="Each of the 29 scalar field decoders plus wind44/temp44/ovc10 is proved against the Doc 9871 layout table (status, sign, msb, lsb, LSB, offset, wrap) for every 112-bit frame; cap17 deductively for all patterns with <=2 capability bits and bounded otherwise (2^24 list shapes); re-export identity by table evaluation. Known finding F14 (vr53 special case) is excluded by its region predicate.",
       ref="DESIGN.md section 5 C11"),
+ "C14": dict(cat="proof", tech=TECH % "z3 (outcome analysis: every path ends in return or raise of a modelled exception class)",
+      text="For 112-bit frames the body obligations of C02-C13 state the exact outcome of every exported decoder (value for the documented DF/TC/subtype set, RuntimeError otherwise); C14 adds every adsb/commb/surv/allcall/common function on well-formed short frames, oe_flag, and tell() (proved to return or raise RuntimeError for every frame, with abstract contracts for infer/callsign). The type-guard clause of the four raw position decoders is sampled natively (bounded). Known findings F17a-d (unguarded position decoders / oe_flag) and F18 (ValueError on short frames) are excluded by their regions.",
+      ref="DESIGN.md section 5 C14"),
+ "C18": dict(cat="proof", tech=TECH % "GF(2)-affine normal forms (uplink_icao) and z3 (fields)",
+      text="uplink_icao is proved to return A for every frame data || parity(data) xor top24(A x G) (all 2^24 addresses, all payloads, both lengths) by comparing affine normal forms generated from the real bit-serial loop; uf/bds/pr/ic/lockout are proved against Annex 10 field positions for every frame; uplink_fields() agrees with them wherever they are not None.",
+      ref="DESIGN.md section 5 C18"),
 }
 
 NA = {}
